@@ -378,6 +378,45 @@ pub fn ck_try_f_fails(len: usize, ulen: usize, f: (usize, usize), h: (usize, usi
     assert!(same(&env.rt.stack[..len - ta], &s[..len - ta]));
     assert!(same(&env.rt.under_stack, &u));
 }
+/// `try F G H`: F fails, then the first handler G fails too; H must still be entered on exactly
+/// the original arguments (C11 quantifies over "all F ... all handlers").
+pub fn ck_try3_both_fail(len: usize, ulen: usize, f: (usize, usize), g: (usize, usize), h: (usize, usize), eat: usize, junk: usize, ujunk: usize) {
+    set_sig(0, f.0, f.1, 0, 0);
+    set_sig(1, g.0, g.1, 0, 0);
+    set_sig(2, h.0, h.1, 0, 0);
+    let (mut env, s, u) = mk(len, ulen);
+    env.behav[0] = Behav { fail: true, is_case: false, eat, junk, ujunk };
+    env.behav[1] = Behav { fail: true, is_case: false, eat: junk, junk: eat, ujunk };
+    let ops: Ops = vec![
+        SigNode { sig: Signature::new(f.0, f.1), node: Node(0) },
+        SigNode { sig: Signature::new(g.0, g.1), node: Node(1) },
+        SigNode { sig: Signature::new(h.0, h.1), node: Node(2) },
+    ];
+    let (ts, any_takes_err) = try_sig(&ops);
+    let (ta, to) = (ts.args(), ts.outputs());
+    let r = try_(ops, false, &mut env);
+    if len < ta {
+        assert!(r.is_err());
+        return;
+    }
+    assert!(r.is_ok());
+    assert!(env.nlog == 3 && env.log_node[0] == 0 && env.log_node[1] == 1 && env.log_node[2] == 2);
+    // both handlers start from the hidden context F started from
+    assert!(same(&env.log_under[1], &u) && same(&env.log_under[2], &u));
+    // G and H each see: everything beneath try's arguments untouched, then (the error iff they take it), then the original arguments
+    let args = top(&s, ta);
+    let g_takes = any_takes_err && g.0 + (to - g.1) == ta + 1;
+    let want_g = if g_takes { cat(&[&below(&s, ta), &[ERR_TOKEN], &args]) } else { cat(&[&below(&s, ta), &args]) };
+    assert!(same(&env.log_stack[1], &want_g));
+    let h_takes = any_takes_err && h.0 + (to - h.1) == ta + 1;
+    let hnet = h.1 as isize - h.0 as isize;
+    let tnet = to as isize - ta as isize;
+    let k = if hnet > tnet { (hnet - tnet) as usize } else { 0 };
+    let want_h = if h_takes { cat(&[&below(&s, ta), &[ERR_TOKEN], &args[k..]]) } else { cat(&[&below(&s, ta), &args[k..]]) };
+    assert!(same(&env.log_stack[2], &want_h));
+    assert!(env.rt.stack.len() == len - ta + to);
+    assert!(same(&env.rt.under_stack, &u));
+}
 /// `try F H` where F fails with a *case* error (which escapes one `try`): the whole
 /// `try` fails.  As a failing node of signature try_sig it must obey the failure clause
 /// every operand obeys: nothing beneath its own arguments is touched (otherwise an
